@@ -57,6 +57,8 @@ func NewDecls() *Decls {
 	d.raw("f:bconcat", "(declare-fun bconcat (Bytes Bytes) Bytes)")
 	d.raw("f:ityp", "(declare-fun ityp (Iface) Int)")
 	d.raw("f:snil", "(define-fun snil () Slice (mkslice rnil 0 0 0))")
+	d.raw("f:sidx", "(declare-fun sidx (Slice Int) Int)")
+	d.axiomKeyed("(forall ((s Slice) (i Int)) (! (= (sidx s i) (+ (soff s) i)) :pattern ((sidx s i))))", "sidx")
 	d.raw("f:beq", "(define-fun beq ((a Bytes) (b Bytes)) Bool (or (= a b) (and (= (blen a) 0) (= (blen b) 0))))")
 	d.raw("f:gomod", "(define-fun gomod ((a Int) (b Int)) Int (ite (>= a 0) (mod a (ite (>= b 0) b (- b))) (- (mod (- a) (ite (>= b 0) b (- b))))))")
 	d.raw("f:godiv", "(define-fun godiv ((a Int) (b Int)) Int (ite (>= a 0) (ite (> b 0) (div a b) (- (div a (- b)))) (ite (> b 0) (- (div (- a) b)) (div (- a) (- b)))))")
@@ -355,6 +357,8 @@ func (d *Decls) ERef(t types.Type) string {
 	d.fun(name, []Sort{SRef, SInt}, SRef)
 	d.fun(name+"_a", []Sort{SRef}, SRef)
 	d.fun(name+"_i", []Sort{SRef}, SInt)
+	d.fun("stamp", []Sort{SRef}, SInt)
+	d.axiomKeyed(fmt.Sprintf("(forall ((r Ref) (i Int)) (! (and (= (stamp (%s r i)) (stamp r)) (= (%s_a (%s r i)) r) (= (%s_i (%s r i)) i) (not (= (%s r i) rnil))) :pattern ((%s r i))))", name, name, name, name, name, name, name), name)
 	return name
 }
 
